@@ -115,6 +115,7 @@ pub fn st_it_sum(a: u64, b: u64) -> u64 { bytes(a).iter().map(|v| *v as u32 + (b
 pub fn st_it_sum_overflow(a: u64, b: u64) -> u64 { bytes(a).iter().map(|v| (*v).wrapping_add(b as u8)).sum::<u8>() as u64 }
 pub fn st_partition_point(a: u64, b: u64) -> u64 { let mut x = bytes(a); let mut i = 1; while i < 4 { if x[i] < x[i - 1] { x[i] = x[i - 1]; } i += 1; } x.partition_point(|v| (*v as u64) < (b & 0x7f)) as u64 }
 pub fn st_it_any_all(a: u64, b: u64) -> u64 { let x = bytes(a); (x.iter().any(|v| *v as u64 == (b & 0x7f)) as u64) | (x.iter().all(|v| *v as u64 >= (b & 0x3f)) as u64) << 1 }
+pub fn st_last_mut(a: u64, b: u64) -> u64 { let mut v = bytes(a).to_vec(); v.truncate((b % 5) as usize); if let Some(l) = v.last_mut() { *l = 0x11; } if let Some(f) = v.first_mut() { *f ^= 0x22; } if let Some(g) = v.get_mut(((b >> 3) % 6) as usize) { *g = g.wrapping_add(3); } let mut r = v.len() as u64; for x in v.iter() { r = r * 131 + *x as u64; } r }
 
 pub const ST_FNS: &[(&str, fn(u64, u64) -> u64)] = &[
     ("st_min", st_min), ("st_max", st_max), ("st_imin", st_imin), ("st_imax", st_imax), ("st_cmp", st_cmp), ("st_icmp", st_icmp),
@@ -140,5 +141,5 @@ pub const ST_FNS: &[(&str, fn(u64, u64) -> u64)] = &[
     ("st_it_zip", st_it_zip), ("st_it_chain", st_it_chain), ("st_it_position", st_it_position), ("st_it_find", st_it_find),
     ("st_it_find_map", st_it_find_map), ("st_it_fold", st_it_fold), ("st_it_last", st_it_last), ("st_it_nth", st_it_nth),
     ("st_it_sum", st_it_sum), ("st_it_sum_overflow", st_it_sum_overflow), ("st_partition_point", st_partition_point),
-    ("st_it_any_all", st_it_any_all),
+    ("st_it_any_all", st_it_any_all), ("st_last_mut", st_last_mut),
 ];
